@@ -220,6 +220,10 @@ Section Model.
                 let (s2, xs) := run s1 r in (s2, x :: xs)
     end.
 
+  (* the events of a history started from the empty database: each operation with the result it returned *)
+  Definition history (c : config) (ops : list op) : list (op * out) :=
+    combine ops (snd (run (init c) ops)).
+
   (* ---- refresh_session as it was at the pinned commit (before the repair): no validity check. Kept only to
           state the refutation. ---- *)
   Definition refresh_old (s : state) (t now2 : N) : state * out :=
@@ -377,6 +381,80 @@ Definition rng_ok (ops : list op) : Prop := NoDup (fresh_toks ops).
 Definition env_ok (ops : list op) : Prop := clock_ok ops /\ rng_ok ops.
 
 (* ================================================================================================
+   What a history says about one token / one user, read off the events alone (no state): the declarative,
+   token-centred reading of the property. An event is an operation with the result it returned. *)
+Definition event := (op * out)%type.
+
+Definition drop_owner (u : N) (st : option (N * N)) : option (N * N) :=
+  match st with
+  | Some (u', x) => if u' =? u then None else st
+  | None => None
+  end.
+
+(* acc = (configuration in force, Some (owner, expiry) if token t currently stands for a session) *)
+Definition tok_event (t : N) (acc : config * option (N * N)) (ev : event) : config * option (N * N) :=
+  let (c, st) := acc in
+  match ev with
+  | (CreateSession u _ now2 tok, Ok _) =>
+      (* issued to u; any previous token of u is replaced *)
+      (c, if tok =? t then Some (u, sat_add now2 (c_life c)) else drop_owner u st)
+  | (CreateSessionLt u life _ now2 tok, Ok _) =>
+      (c, if tok =? t then Some (u, sat_add now2 life) else drop_owner u st)
+  | (Refresh t' _ now2, Ok _) =>
+      (c, if t' =? t then match st with Some (u, _) => Some (u, sat_add now2 (c_refresh c)) | None => None end
+          else st)
+  | (InvalidateSession t', _) => (c, if t' =? t then None else st)
+  | (InvalidateUser u, _) => (c, drop_owner u st)
+  | (RemoveUser u, _) => (c, drop_owner u st)
+  | (SetConfig c', _) => (c', st)
+  | _ => acc
+  end.
+
+(* Some (owner, expiry): t was issued to owner and has since been neither invalidated, nor replaced, nor lost its
+   owner; expiry as set by the issue or the last successful refresh. None: never issued, or no longer standing. *)
+Definition tok_status (c : config) (h : list event) (t : N) : option (N * N) :=
+  snd (fold_left (tok_event t) h (c, None)).
+
+(* acc = (configuration in force, Some (password, pepper in force at creation) if uid u currently exists) *)
+Definition cred_event (u : N) (acc : config * option (pwd * pepper)) (ev : event) : config * option (pwd * pepper) :=
+  let (c, st) := acc in
+  match ev with
+  | (CreateUser pw fu _, Ok _) => (c, if fu =? u then Some (pw, c_pepper c) else st)
+  | (RemoveUser u', Ok _) => (c, if u' =? u then None else st)
+  | (SetConfig c', _) => (c', st)
+  | _ => acc
+  end.
+Definition cred_status (c : config) (h : list event) (u : N) : option (pwd * pepper) :=
+  snd (fold_left (cred_event u) h (c, None)).
+
+(* operations that present a token for authentication, with the time of the (first) clock read *)
+Definition presents (o : op) : option (N * N) :=
+  match o with
+  | GetUid t now => Some (t, now)
+  | Route (Some t) now => Some (t, now)
+  | Refresh t now _ => Some (t, now)
+  | _ => None
+  end.
+Definition accept_out (o : op) (u : N) : out :=
+  match o with Refresh _ _ _ => Ok VUnit | _ => Ok (VId u) end.
+Definition reject_out (o : op) : out :=
+  match o with Route _ _ => Err EUnauthorized | _ => Err EInvalidToken end.
+(* what the property demands as the answer to a presented token *)
+Definition verdict (o : op) (st : option (N * N)) (now : N) : out :=
+  match st with
+  | Some (u, x) => if now <? x then accept_out o u else reject_out o
+  | None => reject_out o
+  end.
+
+(* tokens handed out by successful create_session calls, in order *)
+Definition issued_by (ev : event) : list N :=
+  match ev with
+  | (CreateSession _ _ _ _, Ok (VId t)) | (CreateSessionLt _ _ _ _ _, Ok (VId t)) => [t]
+  | _ => []
+  end.
+Definition issued (h : list event) : list N := flat_map issued_by h.
+
+(* ================================================================================================
    Executable instance used by the correspondence check: the "hash" is the triple itself. *)
 Definition xH : Type := (pwd * N * pepper)%type.
 Definition xhash (pw : pwd) (salt : N) (pep : pepper) : xH := (pw, salt, pep).
@@ -401,4 +479,5 @@ Definition xinit (c : config) : xstate := init xH c.
 Definition xstep (s : xstate) (o : op) : xstate * out := step xH xhash xverify s o.
 Definition xstep_old (s : xstate) (o : op) : xstate * out := step_old xH xhash xverify s o.
 Definition xrun (s : xstate) (ops : list op) : xstate * list out := run xH xhash xverify s ops.
+Definition xhistory (c : config) (ops : list op) : list (op * out) := history xH xhash xverify c ops.
 Definition xrun_old (s : xstate) (ops : list op) : xstate * list out := run_old xH xhash xverify s ops.
